@@ -333,23 +333,29 @@ inline void m12(const Edge& e, const Parsed& P) {
 // =========================================================================== C15: injection order
 inline int inj_count_of(uint8_t sid) { return sid == ROOT ? INJ_ROOT : INJ_OF[sid]; }
 inline void m15(const Edge& e, const Parsed&) {
-	int i = 0;
+	int i = 0; int lastSid = -1, lastMeth = -1, lastStart = -1, lastEnd = -1;
 	while (i < e.nev) {
 		const Ev& v = e.tr[i];
 		if (v.kind != EV_CB) { ++i; continue; }
 		if (v.meth == M_PLAN_OK || v.meth == M_PLAN_FAIL) { ++i; continue; }   // plan outcome callbacks are not lifecycle events of the property: delivered to the root head itself only
 		const int k = inj_count_of(v.sid);
-		// collect k+1 consecutive callback deliveries of the same (state, method); actions may be interleaved
+		const int own = own_defined(v.sid, v.meth) ? 1 : 0;   // a state that does not define the callback itself contributes no delivery of its own
+		// collect k+own consecutive callback deliveries of the same (state, method); actions may be interleaved
 		int seq[8]; int n = 0; int j = i;
-		while (j < e.nev && n < k + 1) { const Ev& w = e.tr[j]; if (w.kind == EV_CB) { if (w.sid != v.sid || w.meth != v.meth) break; seq[n++] = w.inj; } else if (w.kind == EV_MARK || w.kind == EV_LOG_METHOD) break; ++j; }
-		if (n != k + 1) { flag(C15, "group-incomplete", e, "ev %d: %s on %d delivered to %d of %d members (injections + state)", i, METH_NAME[v.meth], v.sid, n, k + 1); i = j > i ? j : i + 1; continue; }
+		while (j < e.nev && n < k + own) { const Ev& w = e.tr[j]; if (w.kind == EV_CB) { if (w.sid != v.sid || w.meth != v.meth) break; seq[n++] = w.inj; } else if (w.kind == EV_MARK || w.kind == EV_LOG_METHOD) break; ++j; }
+		if (n != k + own) { flag(C15, "group-incomplete", e, "ev %d: %s on %d delivered to %d of %d members (injections%s)", i, METH_NAME[v.meth], v.sid, n, k + own, own ? " + state" : " only: the state defines no such callback"); i = j > i ? j : i + 1; continue; }
 		bool each = true; unsigned seen = 0; for (int q = 0; q < n; ++q) { if (seen & (1u << seq[q])) each = false; seen |= 1u << seq[q]; }
 		if (!each) flag(C15, "member-twice", e, "ev %d: %s on %d", i, METH_NAME[v.meth], v.sid);
+		// one lifecycle event, one group: a second delivery of the same callback kind to the same state can only belong to another event,
+		// and between two events of the same kind for the same state something else always happens (an action that causes the second one,
+		// or a delivery to another state)
+		if (lastSid == v.sid && lastMeth == v.meth && lastEnd >= 0) { bool adjacent = true; for (int q = lastStart; q < i; ++q) if (e.tr[q].kind != EV_LOG_METHOD && e.tr[q].kind != EV_CB) adjacent = false;   /* no action inside or after the previous group */ if (adjacent) flag(C15, "delivered-twice-for-one-event", e, "ev %d: %s on %d delivered again right after the complete group at ev %d", i, METH_NAME[v.meth], v.sid, lastStart); }
+		lastSid = v.sid; lastMeth = v.meth; lastStart = i; lastEnd = j;
 		const uint8_t mth = v.meth;
 		const bool fwd = mth == M_EG || mth == M_ENTER || mth == M_REENTER || mth == M_PRE_UPDATE || mth == M_UPDATE || mth == M_PRE_REACT || mth == M_REACT;
 		const bool rev = mth == M_EXIT || mth == M_POST_UPDATE || mth == M_POST_REACT;
-		if (fwd) { bool ok = seq[k] == 0; for (int q = 0; q < k; ++q) ok = ok && seq[q] == q + 1; if (!ok) flag(C15, "setup-order", e, "ev %d: %s on %d not delivered as I1..I%d then the state", i, METH_NAME[mth], v.sid, k); }
-		if (rev) { bool ok = seq[0] == 0; for (int q = 1; q <= k; ++q) ok = ok && seq[q] == k - q + 1; if (!ok) flag(C15, "teardown-order", e, "ev %d: %s on %d not delivered as the state then I%d..I1", i, METH_NAME[mth], v.sid, k); }
+		if (fwd) { bool ok = !own || seq[k] == 0; for (int q = 0; q < k; ++q) ok = ok && seq[q] == q + 1; if (!ok) flag(C15, "setup-order", e, "ev %d: %s on %d not delivered as I1..I%d then the state", i, METH_NAME[mth], v.sid, k); }
+		if (rev) { bool ok = !own || seq[0] == 0; for (int q = 0; q < k; ++q) ok = ok && seq[q + own] == k - q; if (!ok) flag(C15, "teardown-order", e, "ev %d: %s on %d not delivered as the state then I%d..I1", i, METH_NAME[mth], v.sid, k); }
 		i = j;
 	}
 }
